@@ -161,6 +161,7 @@ type StateProg struct {
 	Steps   []ProgStep
 	SetterSweep        bool // start with every typed setter once (view 0), each with the aliasing probe
 	EmptyBalancesFirst bool // the second step is SetBalances of the empty list (boundary value of a whole-list setter)
+	ForceAdd           int  // the next ForceAdd steps are AddValidator calls on view 0
 	Getters map[string]int // getter -> times compared
 	Setters map[string]int
 }
@@ -413,7 +414,43 @@ func (p *StateProg) Step() (desc string, coq string, err error) {
 	}
 	fi := p.fieldIndex
 	for try := 0; try < 30; try++ {
-		switch r.Intn(16) {
+		choice := r.Intn(17)
+		forced := false
+		if p.ForceAdd > 0 {
+			// a burst of AddValidator calls on one view, each followed by a write of a large inactivity score for the new
+			// validator: every residue of the list lengths modulo the elements-per-chunk of each appended list is met, next to
+			// non-zero neighbours
+			p.ForceAdd--
+			choice, vi, forced = 15+p.ForceAdd%2, 0, true
+			st, sh = p.Typed[0], p.Shadows[0]
+		}
+		switch choice {
+		case 16: // inactivity scores sub-view (altair+)
+			k := fi("inactivity_scores")
+			if k < 0 || len(sh.Elems[k].Elems) == 0 {
+				continue
+			}
+			m := reflect.ValueOf(st).MethodByName("InactivityScores")
+			if !m.IsValid() {
+				continue
+			}
+			out := m.Call(nil)
+			if !out[1].IsNil() {
+				return "", "", fmt.Errorf("InactivityScores: %v", out[1].Interface())
+			}
+			n := len(sh.Elems[k].Elems)
+			i := r.Intn(n)
+			v := r.U64()
+			if forced {
+				i, v = n-1, r.U64()|0x0101010101010101
+			}
+			res := out[0].MethodByName("SetScore").Call([]reflect.Value{reflect.ValueOf(common.ValidatorIndex(i)), reflect.ValueOf(v)})
+			if !res[0].IsNil() {
+				return "", "", fmt.Errorf("InactivityScores().SetScore: %v", res[0].Interface())
+			}
+			sh.Elems[k].Elems[i].B = le64(v)
+			p.Setters["InactivityScores.SetScore"]++
+			return set(k, fmt.Sprintf("v%d.InactivityScores().SetScore(%d)", vi, i))
 		case 0, 1, 2, 3, 4: // typed setter of a whole field
 			d, c, e, ok := p.typedSet(vi, r.Intn(len(sh.Elems)))
 			if !ok {
@@ -621,7 +658,65 @@ func (p *StateProg) Step() (desc string, coq string, err error) {
 			}
 			p.Setters["SeedRandao"]++
 			return set(k, fmt.Sprintf("v%d.SeedRandao", vi))
-		case 14, 15: // copy
+		case 15: // AddValidator: one call appends to the registry, the balances and (altair+) both participation lists and the scores
+			kv, kb := fi("validators"), fi("balances")
+			if kv < 0 || kb < 0 || uint64(len(sh.Elems[kv].Elems)) >= sh.Elems[kv].T.N || uint64(len(sh.Elems[kb].Elems)) >= sh.Elems[kb].T.N {
+				continue
+			}
+			extra := []int{}
+			full := false
+			for _, nm := range []string{"previous_epoch_participation", "current_epoch_participation", "inactivity_scores"} {
+				if k := fi(nm); k >= 0 {
+					extra = append(extra, k)
+					full = full || uint64(len(sh.Elems[k].Elems)) >= sh.Elems[k].T.N
+				}
+			}
+			if full {
+				continue
+			}
+			var pub common.BLSPubkey
+			var wc common.Root
+			copy(pub[:], r.Bytes(48))
+			copy(wc[:], r.Bytes(32))
+			bal := r.U64()
+			if r.Bool() {
+				bal = uint64(spec.EFFECTIVE_BALANCE_INCREMENT)*uint64(r.Intn(40)) + uint64(r.Intn(1000))
+			}
+			if e := st.AddValidator(spec, pub, wc, common.Gwei(bal)); e != nil {
+				return "", "", fmt.Errorf("AddValidator: %v", e)
+			}
+			eff := bal - bal%uint64(spec.EFFECTIVE_BALANCE_INCREMENT)
+			if eff > uint64(spec.MAX_EFFECTIVE_BALANCE) {
+				eff = uint64(spec.MAX_EFFECTIVE_BALANCE)
+			}
+			vt := sh.Elems[kv].T.Elem
+			far := le64(^uint64(0))
+			leaves := [][]byte{pub[:], wc[:], le64(eff), {0}, far, far, far, far}
+			if len(vt.Fields) != len(leaves) {
+				return "", "", fmt.Errorf("validator schema has %d fields", len(vt.Fields))
+			}
+			nv := &Val{T: vt}
+			for i, f := range vt.Fields {
+				nv.Elems = append(nv.Elems, &Val{T: f.T, B: append([]byte(nil), leaves[i]...)})
+			}
+			sh.Elems[kv].Elems = append(sh.Elems[kv].Elems, nv)
+			sh.Elems[kb].Elems = append(sh.Elems[kb].Elems, &Val{T: sh.Elems[kb].T.Elem, B: le64(bal)})
+			for _, k := range extra {
+				et := sh.Elems[k].T.Elem
+				sh.Elems[k].Elems = append(sh.Elems[k].Elems, &Val{T: et, B: make([]byte, et.N)})
+			}
+			p.Setters["AddValidator"]++
+			var sb strings.Builder
+			fmt.Fprintf(&sb, "TSetMany %d [", vi)
+			for i, k := range append([]int{kv, kb}, extra...) {
+				if i > 0 {
+					sb.WriteString("; ")
+				}
+				fmt.Fprintf(&sb, "(%d%%nat, \"%s\")", k, hex.EncodeToString(sh.Elems[k].Bytes()))
+			}
+			sb.WriteString("]")
+			return fmt.Sprintf("v%d.AddValidator", vi), sb.String(), nil
+		case 14: // copy
 			if len(p.Typed) >= 3 {
 				continue
 			}
